@@ -74,6 +74,11 @@ static void lwe_ops(int n, int reps) {
         VH_OP("lweSubTo:alias:n=%d", n); load(r, c1); lweSubTo(r, r, P); expect("lweSubTo.alias", 0, v1 + v1, true, 1, nullptr);
         VH_OP("lweNegate:alias:n=%d", n); load(r, c1); lweNegate(r, r, P); expect("lweNegate.alias", (U) 0 - ph1, v1, true, 0, nullptr);
         VH_OP("lweAddMulTo:alias:n=%d", n); load(r, c1); lweAddMulTo(r, 3, r, P); expect("lweAddMulTo.alias", 4u * ph1, v1 + 9 * v1, true, 3, nullptr);
+        for (int32_t p: ps) {       // the result is the operand, for every multiplier of the list (c += p c, c -= p c)
+            bool cv = p > -32768 && p < 32768;
+            VH_OP("lweAddMulTo:alias:p=%d:n=%d", p, n); load(r, c1); lweAddMulTo(r, p, r, P); expect("lweAddMulTo.alias", ph1 + (U) p * ph1, v1 + (double) p * p * v1, cv, p, nullptr);
+            VH_OP("lweSubMulTo:alias:p=%d:n=%d", p, n); load(r, c1); lweSubMulTo(r, p, r, P); expect("lweSubMulTo.alias", ph1 - (U) p * ph1, v1 + (double) p * p * v1, cv, p, nullptr);
+        }
         // library phase agrees with the exact phase for a binary key object
         if (kcls == 0) {
             LweKey *K = new_LweKey(P);
